@@ -182,11 +182,27 @@ def _solo(args):
     return sc, (o.rc if not o.exc else f'exception {o.exc}', o.out)
 
 
-def _history(args):
-    seq, files, want = args
+def _run_history(args):
+    seq, files = args
     last = None
     for sc in seq:
         last = cli.run_main(argv_of(sc, files))
+    return (last.rc, last.out, last.exc, last.exc_site, last.tb)
+
+
+class _Last:
+    pass
+
+
+def _history(args):
+    """One history, executed in a pristine forked child so that nothing but the history itself can influence it."""
+    seq, files, want = args
+    status, res = in_fresh_child(_run_history, (seq, files))
+    last = _Last()
+    if status != 'ok':
+        last.rc, last.out, last.exc, last.exc_site, last.tb = None, '', 'ChildFailure', 'harness', str(res)
+    else:
+        last.rc, last.out, last.exc, last.exc_site, last.tb = res
     sc = seq[-1]
     if last.exc:
         return seq, {'key': f'cli_exception {last.exc} @ {last.exc_site} : after history', 'detail': last.tb}
